@@ -51,10 +51,10 @@ Qed.
 
 (* an explicit gene line stored under its own gene id: no relation at all *)
 Theorem l_gene_line g f gn :
-  first_val (g_tkey g) f = None -> dget (g_tkey g) (r_attrs f) <> Some [] \/ True ->
+  first_val (g_tkey g) f = None ->
   first_val (g_gkey g) f = Some gn -> gtf_relations g f gn = [].
 Proof.
-  unfold first_val, gtf_relations. intros Ht _ Hg.
+  unfold first_val, gtf_relations. intros Ht Hg.
   destruct (dget (g_gkey g) (r_attrs f)) as [[|q qs]|]; try discriminate. inversion Hg; subst q.
   rewrite str_eqb_refl. destruct (dget (g_tkey g) (r_attrs f)) as [[|p ps]|]; try discriminate; reflexivity.
 Qed.
